@@ -194,14 +194,11 @@ def parseQsl (qs : Str) : List (Str × Str) :=
       let p := partition '=' nv
       (unquote (replaceChar '+' ' ' p.1), unquote (replaceChar '+' ' ' p.2.2))
 
-/-- `{k: post(v[0]) for k, v in parse_qs(qs, keep_blank_values=True).items()}` in dict insertion
-    order; the pinned code has `post = unquote` (a *second* decoding of the value), the repaired
-    code `post = id`. -/
-def parseParamsW (post : Str → Str) (qs : Str) : List (Str × Str) :=
-  ((parseQsl qs).foldl (fun d kv => insertFirst kv.1 kv.2 d) []).map fun kv => (kv.1, post kv.2)
-
-/-- as on the pinned tree: `{k: unquote(v[0]) for …}` -/
-def parseParams (qs : Str) : List (Str × Str) := parseParamsW unquote qs
+/-- `{k: v[0] for k, v in parse_qs(qs, keep_blank_values=True).items()}` in dict insertion
+    order (the first value of a repeated name wins; `parse_qs` has already percent-decoded names
+    and values once) -/
+def parseParams (qs : Str) : List (Str × Str) :=
+  (parseQsl qs).foldl (fun d kv => insertFirst kv.1 kv.2 d) []
 
 /-! ### The regex as a splitter -/
 
@@ -240,32 +237,15 @@ structure ParseResult where
   deriving DecidableEq, Repr
 
 /-- the tail of `parse_fs_url` once `url` is chosen -/
-def finishUrlW (post : Str → Str) (fsName : Str) (username password : Option Str) (url : Str)
-    (path : Option Str) : ParseResult :=
+def finishUrl (fsName : Str) (username password : Option Str) (url : Str) (path : Option Str) :
+    ParseResult :=
   let p := partition '?' url
-  ⟨fsName, username, password, unquote p.1, if p.2.1 then parseParamsW post p.2.2 else [], path⟩
+  ⟨fsName, username, password, unquote p.1, if p.2.1 then parseParams p.2.2 else [], path⟩
 
-@[reducible] def finishUrl := finishUrlW unquote
-
-/-- `parse_fs_url(fs_url)` as written on the pinned tree.  `.err .ParseError` is the documented
-    failure; `.err .Leak` is the `AttributeError` (`None.partition`) raised when the credentials
-    group is empty — the regex took the `@` alternative, so `url2` is `None`, but
-    `if not credentials` sends the code down the no-credentials branch. -/
+/-- `parse_fs_url(fs_url)`.  `.err .ParseError` is the documented failure.  The credentials group
+    is `None` exactly when the regex took the alternative without `@`, and then `url2` is set
+    (`reFsUrl_shape`); an *empty* credentials group (`x://@host`) is handled like `x://:@host`. -/
 def parseFsUrl (s : Str) : Res ParseResult :=
-  match reFsUrl s with
-  | none => .err .ParseError
-  | some g =>
-    match g.credentials with
-    | some (c :: cs) =>
-      let p := partition ':' (c :: cs)
-      .ok (finishUrl g.fsName (some (unquote p.1)) (some (unquote p.2.2)) (g.url1.getD []) g.path)
-    | _ =>
-      match g.url2 with
-      | some url => .ok (finishUrl g.fsName none none url g.path)
-      | none => .err .Leak
-
-/-- `parse_fs_url` with the one-line repair `if credentials is None:` -/
-def parseFsUrlFixed (s : Str) : Res ParseResult :=
   match reFsUrl s with
   | none => .err .ParseError
   | some g =>
@@ -275,32 +255,6 @@ def parseFsUrlFixed (s : Str) : Res ParseResult :=
       .ok (finishUrl g.fsName (some (unquote p.1)) (some (unquote p.2.2)) (g.url1.getD []) g.path)
     | none => .ok (finishUrl g.fsName none none (g.url2.getD []) g.path)
 
-/-- `parse_fs_url` with only the parameter repair (`params = {k: v[0] …}`) -/
-def parseFsUrlP (s : Str) : Res ParseResult :=
-  match reFsUrl s with
-  | none => .err .ParseError
-  | some g =>
-    match g.credentials with
-    | some (c :: cs) =>
-      let p := partition ':' (c :: cs)
-      .ok (finishUrlW id g.fsName (some (unquote p.1)) (some (unquote p.2.2)) (g.url1.getD []) g.path)
-    | _ =>
-      match g.url2 with
-      | some url => .ok (finishUrlW id g.fsName none none url g.path)
-      | none => .err .Leak
-
-/-- `parse_fs_url` with both repairs (findings/C20-parse-empty-credentials.patch and
-    findings/C20-params-unquoted-twice.patch) -/
-def parseFsUrlRepaired (s : Str) : Res ParseResult :=
-  match reFsUrl s with
-  | none => .err .ParseError
-  | some g =>
-    match g.credentials with
-    | some cred =>
-      let p := partition ':' cred
-      .ok (finishUrlW id g.fsName (some (unquote p.1)) (some (unquote p.2.2)) (g.url1.getD []) g.path)
-    | none => .ok (finishUrlW id g.fsName none none (g.url2.getD []) g.path)
-
 /-! ### URL dispatch by protocol (`fs/opener/registry.py`, `Registry.open`) -/
 
 /-- `Registry.open(fs_url, default_protocol=…)` up to the call of the opener: a text without
@@ -309,10 +263,10 @@ def parseFsUrlRepaired (s : Str) : Res ParseResult :=
     (`load_extern=False`).  Result: the URL and `ParseResult` handed to `opener.open_fs` (the
     second component of `open`'s result is `ParseResult.path`).  `.err .Unsupported` stands for
     `fs.opener.errors.UnsupportedProtocol`. -/
-def registryOpen (parser : Str → Res ParseResult) (known : List Str) (defaultOpener defaultProtocol : Str)
-    (url : Str) : Res (Str × ParseResult) :=
+def registryOpen (known : List Str) (defaultOpener defaultProtocol : Str) (url : Str) :
+    Res (Str × ParseResult) :=
   let url' := if (splitScheme url).isSome then url else defaultProtocol ++ ':' :: '/' :: '/' :: url
-  match parser url' with
+  match parseFsUrl url' with
   | .err e => .err e
   | .ok r =>
     let proto := if r.protocol = [] then defaultOpener else r.protocol
@@ -320,28 +274,21 @@ def registryOpen (parser : Str → Res ParseResult) (known : List Str) (defaultO
 
 /-! ### The builder (inverse of the parser) -/
 
-/-- `k=v` with the value percent-encoded *twice*, because the parser decodes it twice -/
-def buildParam (kv : Str × Str) : Str := quoteAll kv.1 ++ '=' :: quoteAll (quoteAll kv.2)
+/-- `k=v`, both percent-encoded (what `urlencode` emits, with `%20` for a space) -/
+def buildParam (kv : Str × Str) : Str := quoteAll kv.1 ++ '=' :: quoteAll kv.2
 
-/-- the conventional single encoding of a value (what `urlencode` would emit) -/
-def buildParamStd (kv : Str × Str) : Str := quoteAll kv.1 ++ '=' :: quoteAll kv.2
-
-def buildWith (param : Str × Str → Str) (x : ParseResult) : Str :=
+/-- FS URL from its parts: user, password, resource, parameter names and values percent-encoded
+    (everything but `A-Za-z0-9_.-~`), protocol and sub-path verbatim. -/
+def buildFsUrl (x : ParseResult) : Str :=
   x.protocol ++ [':', '/', '/']
   ++ (match x.username, x.password with
       | none, none => []
       | u, p => quoteAll (u.getD []) ++ ':' :: quoteAll (p.getD []) ++ ['@'])
   ++ quoteAll x.resource
-  ++ (if x.params = [] then [] else '?' :: joinWith '&' (x.params.map param))
+  ++ (if x.params = [] then [] else '?' :: joinWith '&' (x.params.map buildParam))
   ++ (match x.path with
       | none => []
       | some p => '!' :: p)
-
-/-- FS URL from its parts: user, password, resource, parameter names percent-encoded once
-    (everything but `A-Za-z0-9_.-~`), parameter values twice, protocol and path verbatim. -/
-def buildFsUrl (x : ParseResult) : Str := buildWith buildParam x
-
-def buildFsUrlStd (x : ParseResult) : Str := buildWith buildParamStd x
 
 /-! ### the builder's precondition (the hypotheses of the round-trip theorem) -/
 
